@@ -443,7 +443,8 @@ def _serialize_text(
     for i, line in enumerate(text.split("\n")):
         if multiline and i:
             buffer.write(LINESEP)
-        buffer.write(_escape(line, pattern=pattern).encode(encoding, errors))
+        escaped = _escape(line, pattern=pattern).replace("]]>", "]]&gt;")
+        buffer.write(escaped.encode(encoding, errors))
     return len(line) + bool(i) * pos
 
 
